@@ -22,13 +22,13 @@ def zeroOpSem : OpSem Rat where
   den := scalarDen
   mem := fun _ x => x = 0
   smul := fun a x => a * x
-  honest := fun o x h => by subst h; exact scalarDen_zero o
+  honest := fun o x _ h => by subst h; exact scalarDen_zero o
   smul_one := scalarOpSem.smul_one
   smul_smul := scalarOpSem.smul_smul
   mem_smul := fun _ a x h => by subst h; simp
   identity_law := fun o h x _ => scalarOpSem.identity_law o h x trivial
   homothety_law := fun o h x _ => scalarOpSem.homothety_law o h x trivial
-  homogeneous := fun o a x _ => scalarDen_hom o a x
+  homogeneous := fun o a x _ _ => scalarDen_hom o a x
 
 theorem zeroApp_eq (ops : List Op) (x : Rat) : zeroOpSem.toSem.app ops x = scalarApp ops x := by
   induction ops with
@@ -49,12 +49,12 @@ def zeroArithSem : ArithSem Rat where
   add_zero := scalarArithSem.add_zero
   smul_sum := scalarArithSem.smul_sum
   invertible := fun _ => True
-  inv_left := fun u k o _ _ x hx => by
+  inv_left := fun u k o _ _ _ x hx => by
     have hx' : x = 0 := hx
     subst hx'
     show scalarDen _ (scalarDen o 0) = 0
     rw [scalarDen_zero, scalarDen_zero]
-  inv_right := fun u k o _ _ x hx => by
+  inv_right := fun u k o _ _ _ x hx => by
     have hx' : x = 0 := hx
     subst hx'
     show scalarDen o (scalarDen _ 0) = 0
@@ -103,11 +103,11 @@ def zeroRuleLaws : RuleLaws zeroArithSem where
     have : x = 0 := hx; subst this; simp only [zero_den]
   polarizer_hwp := fun ul pl ur pr _ _ _ x hx => by
     have : x = 0 := hx; subst this; simp only [zero_den]
-  block_law := fun lk rk res _ ul ur u td lops rops prods _ _ _ _ _ x hx => by
+  block_law := fun lk rk res _ ul ur u td lops rops prods _ _ _ _ _ _ _ _ x hx => by
     have : x = 0 := hx; subst this; simp only [zero_den]
 
 theorem zeroContainerLaws : ContainerLaws zeroArithSem zeroRuleLaws where
-  cont_congr := fun u u' k td ops ops' _ _ _ _ x hx => by
+  cont_congr := fun u u' k td ops ops' _ _ _ _ _ _ x hx => by
     have : x = 0 := hx; subst this; simp only [zero_den]
   blockdiag_identities := fun u td ops _ _ _ x hx => by
     have : x = 0 := hx; subst this; simp only [zero_den]
